@@ -1,5 +1,6 @@
 import Revm.Util.Hex
 import Revm.Model.Evm
+import Revm.Spec.Evm
 /-! Line-protocol driver of component `evm` (C01): whole transactions on `Revm.Model.Evm.transact`.
 
 * `begin evm <spec> <hs> <chainid> <number> <coinbase> <timestamp> <gaslimit> <basefee> <difficulty> <prevrandao|-> <blobgasprice|-> <limit|->`
@@ -8,7 +9,8 @@ import Revm.Model.Evm
 * `evm pc <addr> <gaslimit> <input|-> <class> <gasused> <output|->` → `ok`  (recorded answer of a precompile with a
   non-executable core; class 0 ok, 1 out of gas, 2 error, 3 fatal)
 * `evm tx <caller> <gaslimit> <gasprice> <to|-> <value> <data|-> <nonce|-> <chainid|-> <prio|-> <blobhashes h,h|-> <maxblobfee|-> <accesslist a:k,k;a:|-> <authlist -|e|chain:addr:nonce:authority|x;…>`
-  → `reject` | `<class> gas=<used> refund=<refunded> out=<hex|-> created=<addr|-> logs=<…> || <post-state>` | `panic` …
+  → `reject` | `<class> gas=<used> refund=<refunded> out=<hex|-> created=<addr|-> logs=<…> ;; <post-state>` | `panic` …,
+  followed by ` | spec=<the same line computed by Spec.Evm.transact>` (state kept by snapshots instead of a journal)
   `logs`: `<n>[<addr>:<topic,topic|->:<data|->]…` when short, else `<n>#<keccak of the canonical encoding>`;
   post-state: the touched accounts sorted by address, `<addr>:<c?s?>:<balance>:<nonce>:<codehash>:<k=v,…|->` (changed slots).
 * `evm vector <relative path> <unit index> <fork> <post index>` → `pass`: the expectation that the implementation
@@ -134,16 +136,20 @@ def errStr : Err → String
 
 def FUEL : Nat := 100000000
 
-def runTx (st : St) (tx : Tx) : String :=
-  let codes := st.pre.filterMap fun p => if p.code.isEmpty then none else some (p.codeHash, p.code)
-  let w : World := { js := Journal.JState.new (GasCalc.canon st.spec) (fun _ => false), pre := st.pre, codes := codes,
-                     dbHasStorage := st.dbHasStorage, pcOracle := st.pcs }
-  match transact FUEL w { st.env with tx := tx } st.spec with
+def replyOf : R (Outcome × World) → String
   | .error e => errStr e
   | .ok (.rejected, _) => "reject"
   | .ok (.executed r, w) =>
     let created := match r.created with | some a => toHex a | none => "-"
-    s!"{r.cls.name} gas={r.gasUsed} refund={r.gasRefunded} out={outStr r.output} created={created} logs={logsStr r.logs} || {stateStr w}"
+    s!"{r.cls.name} gas={r.gasUsed} refund={r.gasRefunded} out={outStr r.output} created={created} logs={logsStr r.logs} ;; {stateStr w}"
+
+/-- the model's reply and, as the Spec column, the reply of the snapshot-discipline specification `Spec.Evm.transact` -/
+def runTx (st : St) (tx : Tx) : String :=
+  let w := Spec.Evm.freshWorld st.spec st.pre st.dbHasStorage st.pcs
+  let e := { st.env with tx := tx }
+  let m := replyOf (transact FUEL w e st.spec)
+  let sp := replyOf (Spec.Evm.transact FUEL w e st.spec)
+  s!"{m} | spec={sp}"
 
 def handle (st : St) (toks : List String) : St × String :=
   match toks with
